@@ -8,6 +8,22 @@ import (
 	"strings"
 )
 
+// argVal evaluates a call argument, or takes it from the values saved by a defer statement
+func (ex *Exec) argVal(e ast.Expr) Term {
+	if ex.preArgs != nil {
+		if len(ex.preArgs) == 0 {
+			return ex.opaqueVal(e, "deferred argument")
+		}
+		v := ex.preArgs[0]
+		ex.preArgs = ex.preArgs[1:]
+		if len(ex.preArgs) == 0 {
+			ex.preArgs = []Term{}
+		}
+		return v
+	}
+	return ex.expr(e)
+}
+
 func (ex *Exec) call(c *ast.CallExpr) []Term {
 	// conversion
 	if tv, ok := ex.info.Types[c.Fun]; ok && tv.IsType() {
@@ -44,7 +60,12 @@ func (ex *Exec) call(c *ast.CallExpr) []Term {
 		var args []Term
 		var argTypes []types.Type
 		if recvExpr != nil && sig.Recv() != nil {
-			rv := ex.recvValue(fun.(*ast.SelectorExpr), sig)
+			var rv Term
+			if ex.preArgs != nil {
+				rv = ex.argVal(recvExpr)
+			} else {
+				rv = ex.recvValue(fun.(*ast.SelectorExpr), sig)
+			}
 			args = append(args, rv)
 			argTypes = append(argTypes, sig.Recv().Type())
 		}
@@ -55,7 +76,7 @@ func (ex *Exec) call(c *ast.CallExpr) []Term {
 			}
 		}
 		for i, a := range c.Args {
-			v := ex.expr(a)
+			v := ex.argVal(a)
 			var pt types.Type
 			if i < sig.Params().Len() && !(sig.Variadic() && i >= sig.Params().Len()-1) {
 				pt = sig.Params().At(i).Type()
@@ -253,6 +274,11 @@ func (ex *Exec) builtin(name string, c *ast.CallExpr) []Term {
 		for _, a := range c.Args {
 			ex.expr(a)
 		}
+		if ex.isCmdPkg() {
+			// in the CLI a panic is the failure exit: status 2, nothing more is printed on stdout
+			ex.exitReturn(IntLit(2))
+			return nil
+		}
 		ex.safe("explicit-panic", TFalse, c, exprString(c))
 		ex.kill()
 		return nil
@@ -378,7 +404,7 @@ func (ex *Exec) callWith(c *ast.CallExpr, calleeName string, con *Contract, sig 
 		names["result"] = rs[0]
 	}
 	if con != nil {
-		for _, cl := range con.Of("ensures") {
+		for _, cl := range append(con.Of("ensures"), con.Of("ensures-assumed")...) {
 			env := &SpecEnv{st: ex.st, old: pre, names: names, pkg: pkgOfContract(ex.P, con, fi)}
 			t, err := ex.specTerm(cl.Expr, env)
 			if err != nil {
@@ -386,11 +412,17 @@ func (ex *Exec) callWith(c *ast.CallExpr, calleeName string, con *Contract, sig 
 				continue
 			}
 			ex.fact(t)
+			if cl.Kind == "ensures-assumed" {
+				ex.note("assumed contract clause of " + calleeName + ": " + cl.Text)
+			}
 		}
 		// termination of recursion
 		if fi != nil && ex.sameSCC(fi) {
 			ex.checkDecreases(c, con, names, pre, calleeName, ord)
 		}
+	}
+	if eff != nil && eff.Ghost["exit"] {
+		ex.afterOsCall()
 	}
 	return rs
 }
